@@ -26,7 +26,7 @@ def rule_g1(ctx, F):
     ], accept_desc="replacing the word token by a keyword")
     kw = [pt for pt, n in find(fn, "is_keyword = ts_parser__call_keyword_lex_fn(self)")]
     ctx.before("G1", "ts_parser__lex:is_keyword-is-keyword-lexer-result", fn, acc, kw, "`is_keyword` tested is the keyword lexer's verdict")
-    endb = [pt for pt, e in fn.points() if e.get("k") == "decl" and e["name"] == "end_byte" and M(fn).match("self->lexer.token_end_position.bytes", e.get("init") or {})]
+    endb = [pt for pt, e in fn.points() if e.get("k") == "decl" and e["name"] == bind(fn, "end_byte", "self->lexer.token_end_position.bytes") and M(fn).match("self->lexer.token_end_position.bytes", e.get("init") or {})]
     resets = [pt for pt, n in find(fn, "ts_lexer_reset(&self->lexer, self->lexer.token_start_position)")]
     starts = [pt for pt, n in find(fn, "ts_lexer_start(&self->lexer)")]
     dom = dominators(fn)
@@ -54,7 +54,7 @@ def rule_g2(ctx, F):
     ], accept_desc="relabelling a keyword as the word token")
     te = [pt for pt, n in find(fn, "ts_language_table_entry(self->language, state, self->language->keyword_capture_token, &table_entry)")]
     ctx.before("G2", "ts_parser__advance:entry-is-for-word-token", fn, acc, te, "the table entry tested is the word token's entry in the current state")
-    mk = [pt for pt, e in fn.points() if e.get("k") == "decl" and e["name"] == "mutable_lookahead" and M(fn).match("ts_subtree_make_mut(&self->tree_pool, lookahead)", e.get("init") or {})]
+    mk = [pt for pt, e in fn.points() if e.get("k") == "decl" and e["name"] == bind(fn, "mutable_lookahead", "ts_subtree_make_mut(&self->tree_pool, lookahead)") and M(fn).match("ts_subtree_make_mut(&self->tree_pool, lookahead)", e.get("init") or {})]
     ctx.before("G2", "ts_parser__advance:relabel-on-private-copy", fn, acc, mk, "the token is made exclusively owned before its symbol is changed")
 
 
